@@ -435,13 +435,38 @@ func (p *Prog) frameObligations0(prop string) []*Obligation {
 	case "C08":
 		return p.c08Obligations()
 	case "C13":
-		return append(append(p.c13Obligations(), p.escRewriteObligations([]string{"C13"})...), p.escFormatObligations([]string{"C13"})...)
+		// values substituted for placeholders are the data's numbers as written: the exact-number decoder is a door of C13 too
+		return append(append(append(p.c13Obligations(), p.escRewriteObligations([]string{"C13"})...), p.escFormatObligations([]string{"C13"})...), p.doorObligations([]string{"C13"})...)
 	case "C02":
-		return p.ownObligations(map[string]bool{"generator": true, "path": true}, "C02")
+		// distinct numbers reached by a path stay distinct values: the exact-number decoder is a door of C02 too
+		return append(p.ownObligations(map[string]bool{"generator": true, "path": true}, "C02"), p.doorObligations([]string{"C02"})...)
 	case "C01":
 		return append(p.ownObligations(map[string]bool{"generator": true, "profile": true}, "C01"), p.doorObligations([]string{"C01"})...)
 	case "C04":
 		return p.doorObligations([]string{"C04"})
+	case "C18":
+		// the CLI's contracts take the library's results as values and assume it leaves stdout alone (ensures-assumed
+		// lib-function ... stdout == old(stdout)): that frame is an obligation here. No function the commands reach in the
+		// library may write to standard output (or the file system); the generated parser is excluded (A-PEG-NODEBUG)
+		tags := []string{"C18"}
+		for _, e := range []string{"validator.Validate", "validator.GenerateRego", "validator.ProcessInput", "validator.ProcessProfile", "validator.Encode"} {
+			if p.Funcs[e] == nil {
+				continue
+			}
+			var bad []string
+			for n := range p.reachableFrom([]string{e}) {
+				fi := p.Funcs[n]
+				if fi == nil || strings.HasSuffix(fi.File, "/peg.go") {
+					continue
+				}
+				if d := p.directEffects(fi, NewUniverse()); d != nil && (d.Ghost["stdout"] || d.Ghost["fs"]) {
+					bad = append(bad, n+" writes to standard output or the file system ("+strings.TrimPrefix(fi.File, p.RepoDir+"/")+")")
+				}
+			}
+			sort.Strings(bad)
+			obls = append(obls, analysisObl("frame:"+e+"#library-prints-nothing", "frame", tags, len(bad) == 0, "no function reachable from "+e+" writes to standard output or to the file system: what the CLI prints is what its own commands print", p.pos(p.Funcs[e].Body()), strings.Join(bad, "\n"), e))
+		}
+		return obls
 	case "C07":
 		return append(append(p.c07Obligations(), p.hygBindObligations()...), p.hygShapeObligations()...)
 	case "C10", "C09":
